@@ -492,15 +492,14 @@ theorem step_rel13 (c : PCfg) (s : PState) (m : M13) (e : Ev) (hg : Good c s) (h
   | frame mo f =>
     obtain ⟨a, b⟩ := processFrame_c13 c s mo f hg hn
     simp only [M13.step, PState.step, Rel13]
-    rw [a, b, h1, h2]
-    simp
+    simp [a, b, h1, h2]
   | bad f =>
     simp only [M13.step, PState.step, Rel13, processBad, stopRecording, stopConstantRecorder]
     cases hrec : s.isRec <;> cases hc : c.constOn <;>
-      simp [h1, h2, hrec, anyWrite, writesGarbage, hasStop, hasStartAny, hasStartOk]
+      simp [h1, h2, hrec, anyWrite, writesGarbage, hasStop, hasStartAny]
   | reset f =>
-    simp only [M13.step, PState.step, Rel13, stopRecording]
-    cases hrec : s.isRec <;> simp [h1, h2, hrec, writesGarbage, hasStop, hasStartOk]
+    cases hrec : s.isRec <;>
+      simp [M13.step, PState.step, Rel13, stopRecording, h1, h2, hrec, writesGarbage, hasStop, hasStartOk]
   | testReq =>
     simp [M13.step, PState.step, Rel13, h1, h2, writesGarbage, hasStop, hasStartOk]
 
@@ -533,5 +532,248 @@ theorem c13_bounded (c : PCfg) (hK : 0 < c.K) (evs : List Ev) (hlen : evs.length
         exact step_rel13 c s m e hg (by omega) (hr (by omega)))
     evs 0 (PState.init c) {} ⟨good_init c hK, Nat.le_refl _, fun _ => ⟨rfl, rfl⟩⟩
   exact (h.2.2 (by omega)).2
+
+/-! ## C17 — continuous / test sink layout -/
+
+theorem obsOf_append (k : Sink) (a b : List Obs) : obsOf k (a ++ b) = obsOf k a ++ obsOf k b := by
+  simp [obsOf]
+theorem sinkFault_append (a b : List Obs) : sinkFault (a ++ b) = (sinkFault a || sinkFault b) := by
+  simp [sinkFault]
+
+/-- the observation list touches neither the continuous nor the test sink -/
+def MotOnly (obs : List Obs) : Prop :=
+  obsOf .const obs = [] ∧ obsOf .test obs = [] ∧ sinkFault obs = false
+
+theorem motOnly_nil : MotOnly [] := by simp [MotOnly, obsOf, sinkFault]
+
+theorem motOnly_append {a b : List Obs} (ha : MotOnly a) (hb : MotOnly b) : MotOnly (a ++ b) := by
+  obtain ⟨a1, a2, a3⟩ := ha
+  obtain ⟨b1, b2, b3⟩ := hb
+  simp [MotOnly, obsOf_append, sinkFault_append, a1, a2, a3, b1, b2, b3]
+
+theorem preTrigger_motOnly (fa : Nat) (ids : List Nat) (k : Nat) : MotOnly (preTrigger fa ids k).1 := by
+  induction ids generalizing k with
+  | nil => exact motOnly_nil
+  | cons id rest ih =>
+    simp only [preTrigger]
+    split
+    · simp [MotOnly, obsOf, sinkFault]
+    · have h := ih (k + 1)
+      simp only [MotOnly, obsOf, sinkFault] at h ⊢
+      simp [h]
+
+theorem pDetect_motOnly (c : PCfg) (s : PState) (motion : Bool) (f : Faults) :
+    MotOnly (pDetect c s motion f).1.2 := by
+  have hp : ∀ h : List Nat, MotOnly (preTrigger f.mWriteFail h.dropLast 0).1 :=
+    fun h => preTrigger_motOnly _ _ _
+  simp only [MotOnly, obsOf, sinkFault] at hp ⊢
+  unfold pDetect
+  repeat' split
+  all_goals simp_all
+  all_goals exact hp _
+
+theorem pWrite_motOnly (id k : Nat) (f : Faults) (s : PState) : MotOnly (pWrite id k f s).2 := by
+  unfold pWrite
+  split <;> simp [MotOnly, obsOf, sinkFault]
+
+theorem pStop_motOnly (f : Faults) (s : PState) : MotOnly (pStop f s).2 := by
+  unfold pStop stopRecording
+  repeat' split
+  all_goals simp [MotOnly, obsOf, sinkFault]
+
+theorem stopRecording_motOnly (s : PState) (ok : Bool) : MotOnly (s.stopRecording ok).2 := by
+  unfold stopRecording
+  split <;> simp [MotOnly, obsOf, sinkFault]
+
+theorem process_motOnly (c : PCfg) (s : PState) (motion : Bool) (f : Faults) :
+    MotOnly (process c s motion f).2 := by
+  rw [process_eq]
+  simp only [andThen_fst, andThen_snd]
+  exact motOnly_append (motOnly_append (pDetect_motOnly ..) (pWrite_motOnly ..)) (pStop_motOnly ..)
+
+theorem pcr_c17 (c : PCfg) (s : PState) (id : Nat) (f : Faults) (h0 : c.constOn = false → s.crFrames = 0) :
+    obsOf .test (processConstantRecorder c s id f).2 = [] ∧
+    (c.constOn = false → (processConstantRecorder c s id f).1.crFrames = 0) ∧
+    (sinkFault (processConstantRecorder c s id f).2 = false →
+      obsOf .const (processConstantRecorder c s id f).2 =
+        (if !c.constOn then [] else
+          (if s.crFrames = 0 then [Obs.call .const .start true] else []) ++
+          [Obs.call .const (.write id) true] ++
+          (if s.crFrames + 1 > c.maxF then [Obs.call .const .stop true] else [])) ∧
+      (processConstantRecorder c s id f).1.crFrames =
+        (if !c.constOn then 0 else if s.crFrames + 1 > c.maxF then 0 else s.crFrames + 1)) := by
+  simp only [processConstantRecorder]
+  cases hc : c.constOn
+  · simp [obsOf, sinkFault, h0 hc]
+  · by_cases h2 : s.crFrames + 1 > c.maxF <;> simp only [h2, ↓reduceIte] <;>
+      by_cases h1 : s.crFrames = 0 <;>
+      cases h3 : f.cStart <;> cases h4 : f.cWrite <;> cases h5 : f.cStop <;>
+      simp [obsOf, sinkFault, h1]
+
+theorem psn_c17 (c : PCfg) (s : PState) (id : Nat) (f : Faults) (hx : (s.startSnap && s.snapRec) = false) :
+    obsOf .const (processSnapshot c s id f).2 = [] ∧
+    (sinkFault (processSnapshot c s id f).2 = false →
+      obsOf .test (processSnapshot c s id f).2 =
+        (if s.startSnap && !s.snapRec then [Obs.call .test .start true] else []) ++
+        (if s.snapRec || (s.startSnap && !s.snapRec) then [Obs.call .test (.write id) true] else []) ++
+        (if (s.snapRec || (s.startSnap && !s.snapRec)) &&
+            decide ((if s.snapRec || (s.startSnap && !s.snapRec) then s.snapFrames + 1 else s.snapFrames)
+              > c.testLast)
+          then [Obs.call .test .stop true] else []) ∧
+      (processSnapshot c s id f).1.snapRec =
+        ((s.snapRec || (s.startSnap && !s.snapRec)) &&
+          !((s.snapRec || (s.startSnap && !s.snapRec)) &&
+            decide ((if s.snapRec || (s.startSnap && !s.snapRec) then s.snapFrames + 1 else s.snapFrames)
+              > c.testLast))) ∧
+      (processSnapshot c s id f).1.snapFrames =
+        (if (s.snapRec || (s.startSnap && !s.snapRec)) &&
+            decide ((if s.snapRec || (s.startSnap && !s.snapRec) then s.snapFrames + 1 else s.snapFrames)
+              > c.testLast)
+          then 0 else (if s.snapRec || (s.startSnap && !s.snapRec) then s.snapFrames + 1 else s.snapFrames)) ∧
+      (processSnapshot c s id f).1.startSnap = false) := by
+  have hcases : (s.startSnap = false ∧ s.snapRec = false) ∨ (s.startSnap = false ∧ s.snapRec = true) ∨
+      (s.startSnap = true ∧ s.snapRec = false) := by
+    cases h0 : s.startSnap <;> cases h1 : s.snapRec <;> simp_all
+  simp only [processSnapshot]
+  rcases hcases with ⟨h0, h1⟩ | ⟨h0, h1⟩ | ⟨h0, h1⟩ <;>
+    by_cases h2 : c.testLast < s.snapFrames + 1 <;>
+    cases h3 : f.tStart <;> cases h4 : f.tWrite <;> cases h5 : f.tStop <;>
+    simp [obsOf, sinkFault, h0, h1, h2]
+
+/-- monitor state ↔ model state; nothing is claimed about the bookkeeping once tainted -/
+def Rel17 (c : PCfg) (s : PState) (m : M17) : Prop :=
+  m.fails = [] ∧ (m.tainted = false →
+    m.n = s.n ∧ m.cPos = s.crFrames ∧ (c.constOn = false → s.crFrames = 0) ∧
+    m.tOpen = s.snapRec ∧ m.tCount = s.snapFrames ∧ m.pending = s.startSnap ∧
+    (s.startSnap && s.snapRec) = false)
+
+theorem frame_rel17 (c : PCfg) (s : PState) (m : M17) (mo : Bool) (f : Faults) (hr : Rel17 c s m) :
+    Rel17 c (processFrame c s mo f).1 (M17.step c m ⟨.frame mo f, (processFrame c s mo f).2⟩) := by
+  rw [processFrame_eq]
+  simp only [andThen_fst, andThen_snd]
+  obtain ⟨p1, p2, p3⟩ := process_motOnly c { s with ring := s.ring.write s.n } mo f
+  obtain ⟨_, _, q3, q4, q5, q6⟩ := process_fields c { s with ring := s.ring.write s.n } mo f
+  generalize process c { s with ring := s.ring.write s.n } mo f = p at *
+  have hcr := pcr_c17 c p.1 s.n f
+  obtain ⟨k, hk⟩ := pcr_shape c p.1 s.n f
+  generalize processConstantRecorder c p.1 s.n f = cr at *
+  have hsn := psn_c17 c cr.1 s.n f
+  obtain ⟨a, b, k', hs⟩ := psn_shape c cr.1 s.n f
+  generalize processSnapshot c cr.1 s.n f = sn at *
+  obtain ⟨mn, cPos, tOpen, tCount, pending, tainted, fails⟩ := m
+  obtain ⟨hf, ht⟩ := hr
+  simp only at hf ht
+  subst hf
+  simp only [M17.step, Rel17, obsOf_append, sinkFault_append, p1, p2, p3, List.nil_append, Bool.false_or]
+  cases tainted
+  · obtain ⟨rfl, rfl, h0, rfl, rfl, rfl, hx⟩ := ht rfl
+    simp only at q3 q4 q5 q6
+    have e1 : cr.1.startSnap = s.startSnap := by rw [hk]; exact q4
+    have e2 : cr.1.snapRec = s.snapRec := by rw [hk]; exact q5
+    have e3 : cr.1.snapFrames = s.snapFrames := by rw [hk]; exact q6
+    have e4 : sn.1.crFrames = cr.1.crFrames := by rw [hs]
+    rw [q3] at hcr
+    rw [e1, e2, e3] at hsn
+    obtain ⟨c1, c2, c3⟩ := hcr h0
+    obtain ⟨n1, n2⟩ := hsn hx
+    cases hsf1 : sinkFault cr.2
+    · cases hsf2 : sinkFault sn.2
+      · obtain ⟨c4, c5⟩ := c3 hsf1
+        obtain ⟨n3, n4, n5, n6⟩ := n2 hsf2
+        simp only [Bool.or_self, Bool.false_eq_true, if_false, List.nil_append, c1, n1, c4, n3,
+          List.append_nil, if_true, true_and, forall_const, e4, c5, n4, n5, n6, Bool.false_and, and_true]
+        intro hc
+        simp [hc]
+      · simp
+    · simp
+  · simp
+
+theorem bad_rel17 (c : PCfg) (s : PState) (m : M17) (f : Faults) (hr : Rel17 c s m) :
+    Rel17 c (processBad c s f).1 (M17.step c m ⟨.bad f, (processBad c s f).2⟩) := by
+  obtain ⟨hf, ht⟩ := hr
+  simp only [processBad, andThen_fst, andThen_snd]
+  obtain ⟨p1, p2, p3⟩ := stopRecording_motOnly { s with ring := s.ring.write garbage } f.mStop
+  obtain ⟨_, q2, _, q3, q4, q5, q6⟩ := stopRecording_fields { s with ring := s.ring.write garbage } f.mStop
+  generalize stopRecording { s with ring := s.ring.write garbage } f.mStop = p at *
+  simp only at q2 q3 q4 q5 q6
+  simp only [M17.step, Rel17, obsOf_append, sinkFault_append, p1, p3, List.nil_append, Bool.false_or,
+    stopConstantRecorder]
+  cases hc : c.constOn <;> cases h5 : f.cStop <;> cases htt : m.tainted <;>
+    simp_all [obsOf, sinkFault]
+
+theorem reset_rel17 (c : PCfg) (s : PState) (m : M17) (f : Faults) (hr : Rel17 c s m) :
+    Rel17 c (s.stopRecording f.mStop).1 (M17.step c m ⟨.reset f, (s.stopRecording f.mStop).2⟩) := by
+  obtain ⟨hf, ht⟩ := hr
+  obtain ⟨p1, p2, p3⟩ := stopRecording_motOnly s f.mStop
+  obtain ⟨_, q2, _, q3, q4, q5, q6⟩ := stopRecording_fields s f.mStop
+  generalize stopRecording s f.mStop = p at *
+  simp only [M17.step, Rel17, p3]
+  simp_all
+
+theorem testReq_rel17 (c : PCfg) (s : PState) (m : M17) (hr : Rel17 c s m) :
+    Rel17 c { s with startSnap := true } (M17.step c m ⟨.testReq, []⟩) := by
+  obtain ⟨hf, ht⟩ := hr
+  simp only [M17.step, Rel17, sinkFault]
+  cases htt : m.tainted <;> cases h1 : m.tOpen <;> cases h2 : m.pending <;> simp_all
+
+theorem step_rel17 (c : PCfg) (s : PState) (m : M17) (e : Ev) (hr : Rel17 c s m) :
+    Rel17 c (PState.step c s e).1 (M17.step c m ⟨e, (PState.step c s e).2⟩) := by
+  cases e with
+  | frame mo f => exact frame_rel17 c s m mo f hr
+  | bad f => exact bad_rel17 c s m f hr
+  | reset f => exact reset_rel17 c s m f hr
+  | testReq => exact testReq_rel17 c s m hr
+
+theorem c17_all (c : PCfg) (evs : List Ev) : monC17 c (PState.trace c (PState.init c) evs) = [] := by
+  have h := trace_fold_inv c (M17.step c) (fun _ s m => Rel17 c s m)
+    (fun _ s m e hi => step_rel17 c s m e hi) evs 0 (PState.init c) {}
+    ⟨rfl, fun _ => ⟨rfl, rfl, fun _ => rfl, rfl, rfl, rfl, rfl⟩⟩
+  exact h.1
+
+/-! ## the length bound in `c13_bounded` is needed
+
+Frame ids are frame indices and the monitor uses the id `garbage` as the "rejected content"
+sentinel, so the frame with index `garbage` itself (the 4 000 000 001st accepted frame, ≈ 14 years
+at 9 fps) is flagged when the continuous recorder writes it.  This is an artefact of the id
+encoding, not of the processor; it is recorded here so that the hypothesis is not dropped silently. -/
+
+theorem trace_append (c : PCfg) (s : PState) (a b : List Ev) :
+    PState.trace c s (a ++ b) = PState.trace c s a ++ PState.trace c (PState.after c s a) b := by
+  induction a generalizing s with
+  | nil => rfl
+  | cons e es ih => simp [PState.trace, PState.after, ih]
+
+theorem after_frames_n (c : PCfg) (k : Nat) (mo : Bool) (f : Faults) : ∀ s : PState,
+    (PState.after c s (List.replicate k (Ev.frame mo f))).n = s.n + k := by
+  induction k with
+  | zero => intro s; rfl
+  | succ k ih =>
+    intro s
+    simp only [List.replicate_succ, PState.after, PState.step]
+    rw [ih, (processFrame_fields c s mo f).2]; omega
+
+theorem pcr_writes_id (c : PCfg) (s : PState) (id : Nat) (hc : c.constOn = true) :
+    Obs.call .const (.write id) true ∈ (processConstantRecorder c s id {}).2 := by
+  simp only [processConstantRecorder]
+  repeat' split
+  all_goals simp_all
+
+/-- with the continuous recorder on, the run of `garbage + 1` plain frames is flagged (stated with
+a variable `n = garbage` so that nothing ever evaluates a four-billion-element list) -/
+theorem c13_needs_bound (c : PCfg) (hc : c.constOn = true) (n : Nat) (hn : n = garbage) :
+    monC13 (PState.trace c (PState.init c) (List.replicate (n + 1) (Ev.frame false {}))) ≠ [] := by
+  rw [List.replicate_succ', trace_append]
+  simp only [monC13, List.foldl_append, PState.trace, List.foldl_cons, List.foldl_nil, PState.step]
+  have h1 := after_frames_n c n false {} (PState.init c)
+  generalize PState.after c (PState.init c) (List.replicate n (Ev.frame false {})) = s at *
+  generalize List.foldl M13.step {} _ = m
+  have hn' : s.n = garbage := by rw [h1, ← hn]; simp [PState.init]
+  have hw : writesGarbage (processFrame c s false {}).2 = true := by
+    rw [writesGarbage, List.any_eq_true]
+    refine ⟨Obs.call .const (.write garbage) true, ?_, by simp⟩
+    rw [processFrame_eq]
+    simp only [andThen_snd, andThen_fst, hn']
+    exact List.mem_append_left _ (List.mem_append_right _ (pcr_writes_id _ _ _ hc))
+  simp [M13.step, hw]
 
 end TR
